@@ -145,6 +145,8 @@ def parseOp (ws : List String) : Option Op :=
   | ["replayEnter", i, d] => some (.replayEnter (nat! i) (nat! d))
   | ["replayTransition", i, d] => some (.replayTransition (nat! i) (nat! d))
   | ["attachLogger", i, on] => some (.attachLogger (nat! i) (on == "1"))
+  | ["replayFrom", i, src] => some (.replayFrom (nat! i) (nat! src))
+  | ["replayEnterFrom", i, src] => some (.replayEnterFrom (nat! i) (nat! src))
   | _ => none
 
 /-- one case: cfg + behaviour table + ops, as parsed so far -/
